@@ -490,7 +490,14 @@ func runRecoverMust(c *Ctx, r *RuleRun) {
 			return
 		}
 		if bt, ok := sl.Elem().Underlying().(*types.Basic); !ok || bt.Info()&types.IsString == 0 {
-			return
+			// … or of a small struct that carries the name of a directory entry
+			fromDir := len(cl.Call.Args) > 1 && p.dependsOn(cl.Call.Args[1], func(x ssa.Value) bool {
+				c2, ok := x.(*ssa.Call)
+				return ok && c2.Call.IsInvoke() && c2.Call.Method.Name() == "Name"
+			})
+			if _, isStruct := sl.Elem().Underlying().(*types.Struct); !isStruct || !fromDir {
+				return
+			}
 		}
 		n++
 		dirOnly := hasFact(cl, func(cm Cmp) bool {
